@@ -216,7 +216,7 @@ From Gecs Require Import OracleSim.
     destructions at world level or through an archetype with any issued handle (live, stale, of another
     archetype, or an out-of-range reference; including the generation-overflow panic), to_direct, writes of any
     component through the six direct write paths (view, borrow, slice, borrowed slice, all-slices, iter_mut) and probes at
-    world and archetype level with any issued handle, and len / capacity / is_empty / version queries, without wrapping_version: the specification oracle - the executable
+    world and archetype level with any issued handle, len / capacity / is_empty / version queries and whole-archetype reads through the five read-all paths, without wrapping_version: the specification oracle - the executable
     reading of C01 (accepted iff alive, designates itself), C02 (own latest values, destroy hands back the
     row), C03/C14 (ids), C08 (no handle twice) and C12 (limit) that decides these properties on
     implementation traces - accepts the whole run of the model.  The proof is a simulation: the relation
@@ -240,7 +240,7 @@ Definition c01_core_ops : list op :=
    ODestroy (LArch 0) KEnt TAny (RIssued 9); ODestroy LWorld KEnt TAny (RIssued 3); ODestroy LWorld KEnt TAny (RIssued 3);
    OProbe LWorld KEnt TAny (RIssued 3); OCreate 1 5%N; OCreateW 1 6%N; OCreateW 1 7%N; OCreateW 0 8%N; OProbe (LArch 1) KEnt TAny (RIssued 5);
    OToDirect LWorld KEnt TAny (RIssued 5); OToDirect (LArch 0) KEnt TAny (RIssued 5); OToDirect LWorld KEnt TAny (RIssued 0); OToDirect (LArch 1) KEnt TAny (RIssued 44);
-   OLen 0; OLen 1; OLen 7; OCreate 0 9%N; OCreate 0 10%N; OCreate 0 11%N; OLen 0; OCreateW 0 12%N; OLen 0].
+   OLen 0; OLen 1; OLen 7; OCreate 0 9%N; OCreate 0 10%N; OCreate 0 11%N; OLen 0; OCreateW 0 12%N; OLen 0; OReadAll RIter 0; OReadAll RSlices 1; OReadAll RBSlice 3].
 Example C01_core_language_instance :
   forallb (l0_op c01_decl) c01_core_ops = true /\
   spec_check (Config false true true) c01_decl [] (ONew [2; 2; 2; 2] :: c01_core_ops)
